@@ -233,12 +233,13 @@ Record world := mkW {
   w_clock : N                            (* next stamp *)
 }.
 
-Fixpoint set_assoc {A : Type} (k : name) (v : option A) (l : list (name * A)) : list (name * A) :=
-  match l with
-  | [] => match v with Some x => [(k, x)] | None => [] end
-  | (k', x') :: r =>
-      if String.eqb k k' then match v with Some x => (k, x) :: r | None => r end
-      else (k', x') :: set_assoc k v r
+Definition remove_assoc {A : Type} (k : name) (l : list (name * A)) : list (name * A) :=
+  filter (fun p => negb (String.eqb k (fst p))) l.
+
+Definition set_assoc {A : Type} (k : name) (v : option A) (l : list (name * A)) : list (name * A) :=
+  match v with
+  | Some x => (k, x) :: remove_assoc k l
+  | None => remove_assoc k l
   end.
 
 Fixpoint cache_get (d : digest) (c : list (digest * built)) : option built :=
